@@ -24,6 +24,7 @@ import ast
 import re
 from typing import Any, Dict, List, Optional, Sequence, Set, Tuple
 
+from engine.srcmatch import U
 from engine.fold import EnumMember, Folder, FoldError
 from engine.model import AnalysisError, Program, dotted, walk_no_nested
 from engine.tokwire import Tok, TokWire, flat, merge_slots, toks
@@ -84,7 +85,7 @@ class Ranges:
                 continue
             for st in self.mod.cls(c).body:
                 if isinstance(st, ast.AnnAssign) and isinstance(st.target, ast.Name) and st.target.id == attr:
-                    m = re.search(r'([A-Z]\w+)', ast.unparse(st.annotation).replace('Final', '').replace('Literal', ''))
+                    m = re.search(r'([A-Z]\w+)', U(st.annotation).replace('Final', '').replace('Literal', ''))
                     return m.group(1) if m else None
         return None
 
@@ -115,7 +116,7 @@ class Ranges:
                 if self.mod.has_class('CurveType'):
                     r = self.enum_range('Interpolation')
                     fn = self.mod.methods('CurveType').get('export_binary')
-                    if r and fn is not None and ast.unparse(fn.body[-1]) == 'return self.first.value << 8 | self.second.value':
+                    if r and fn is not None and U(fn.body[-1]) == 'return self.first.value << 8 | self.second.value':
                         return (0, (int(r[1]) << 8) | int(r[1]))
         if isinstance(e, ast.Attribute) and e.attr == 'value':
             # <something>.value of an enum-typed field
@@ -177,7 +178,7 @@ def sign_ok(ctx: Any, rule: str, mod: Any, fold: Folder, cls: Optional[str], rto
         iv = rg.of(arg, locals_) if arg is not None else (-INF, INF)
         ok = lo <= iv[0] and iv[1] <= hi
         ok_all &= ok
-        ctx.check(rule, ok, mod, arg or wfn, f'{label}: slot {i} is written as `{wc}` but read as `{rc}`; the written value `{ast.unparse(arg)[:50] if arg is not None else "?"}` ranges over {iv}, '
+        ctx.check(rule, ok, mod, arg or wfn, f'{label}: slot {i} is written as `{wc}` but read as `{rc}`; the written value `{U(arg)[:50] if arg is not None else "?"}` ranges over {iv}, '
                   f'outside the common range [{lo}, {hi}] the two disagree', func=qual, text=f'{label} slot {i} signedness {wc}/{rc}')
     return ok_all
 
@@ -205,7 +206,7 @@ def m1_cmdseq(ctx: Any, prog: Program) -> None:
     mod = prog.module('cmdseq')
     fold = Folder(prog, mod)
     pf, wf = mod.func('parse'), mod.func('write')
-    src_p, src_w = ast.unparse(pf), ast.unparse(wf)
+    src_p, src_w = U(pf), U(wf)
     # header / counts
     r = TokWire(mod, fold, {'version < 0.2': False}, ignore=('strip_cstring',), sub={'Command.parse': 'CMD'})
     w = TokWire(mod, fold, {}, ignore=(), inline={'pad_string': mod.func('pad_string')})
@@ -230,7 +231,7 @@ def m1_cmdseq(ctx: Any, prog: Program) -> None:
             ctx.shape('C20.M1', False, mod, test, 'version comparison operator not recognised', func='parse', text='cmdseq version selects struct')
         else:
             chosen = dotted(vt if res else vf)
-            ctx.check('C20.M1', chosen == 'ST_COMMAND', mod, test, f'write() stores version {wver[0]} (float32 {stored!r}) and packs ST_COMMAND; parse() evaluates `{ast.unparse(test)}` = {res} and unpacks with {chosen}', func='parse',
+            ctx.check('C20.M1', chosen == 'ST_COMMAND', mod, test, f'write() stores version {wver[0]} (float32 {stored!r}) and packs ST_COMMAND; parse() evaluates `{U(test)}` = {res} and unpacks with {chosen}', func='parse',
                       text='cmdseq version selects struct')
     ok = "unpack('I', file.read(4))" in src_p and "file.write(pack('I', len(sequences)))" in src_w and "file.write(pack('I', len(commands)))" in src_w and 'strip_cstring(file.read(128))' in src_p and 'pad_string(name, 128)' in src_w
     ctx.shape('C20.M1', ok, mod, wf, 'sequence count, 128-byte name, command count', func='write', text='cmdseq sequence header')
@@ -298,7 +299,7 @@ def m1_cmdseq(ctx: Any, prog: Program) -> None:
         if isinstance(a, ast.Constant):
             ctx.check('C20.M1', not rf, mod, a, f'slot {i}: a constant is packed where Command.parse uses `{p}` for {sorted(rf)}', func='write', text=f'cmdseq slot {i} {p} constant')
             continue
-        ctx.check('C20.M1', bool(rf & wf_), mod, a, f'slot {i}: Command.parse parameter `{p}` feeds field(s) {sorted(rf)} but write() packs `{ast.unparse(a)[:50]}` (field(s) {sorted(wf_)})', func='write', text=f'cmdseq slot {i} {p}')
+        ctx.check('C20.M1', bool(rf & wf_), mod, a, f'slot {i}: Command.parse parameter `{p}` feeds field(s) {sorted(rf)} but write() packs `{U(a)[:50]}` (field(s) {sorted(wf_)})', func='write', text=f'cmdseq slot {i} {p}')
     # the optional file check: Command.parse yields None exactly when the flag is clear and the (possibly empty) text otherwise, so the flag the
     # writer packs has to say "is not None" - a truthiness test turns the representable value '' into None
     opt_slots = []
@@ -383,9 +384,9 @@ def m1_cmdseq(ctx: Any, prog: Program) -> None:
                             elif any(isinstance(x, ast.Name) and x.id == prm_h for x in ast.walk(t_h)):
                                 flag_expr = ast.Call(func=ast.Name(id='bool', ctx=ast.Load()), args=[ast.Attribute(value=ast.Name(id='cmd', ctx=ast.Load()), attr=fld_, ctx=ast.Load())], keywords=[])
         kind_ = classify(flag_expr) if flag_expr is not None else 'unknown'
-        ctx.shape('C20.M1', kind_ != 'unknown', mod, a, f'slot {si_}: how the presence flag `{ast.unparse(a)[:40]}` of Command.{fld_} is computed was not recognised', func='write', text='cmdseq optional field flag')
+        ctx.shape('C20.M1', kind_ != 'unknown', mod, a, f'slot {si_}: how the presence flag `{U(a)[:40]}` of Command.{fld_} is computed was not recognised', func='write', text='cmdseq optional field flag')
         if kind_ != 'unknown':
-            ctx.check('C20.M1', kind_ == 'identity', mod, a, f'slot {si_}: the presence flag of Command.{fld_} is `{ast.unparse(flag_expr)[:60]}`, a truthiness test: an empty (but present) {fld_} is written with the flag clear '
+            ctx.check('C20.M1', kind_ == 'identity', mod, a, f'slot {si_}: the presence flag of Command.{fld_} is `{U(flag_expr)[:60]}`, a truthiness test: an empty (but present) {fld_} is written with the flag clear '
                       'and read back as None', func='write', text='cmdseq optional field flag')
     # fixed-width strings raise
     ps = mod.func('pad_string')
@@ -393,7 +394,7 @@ def m1_cmdseq(ctx: Any, prog: Program) -> None:
     if not raising:
         ctx.check('C20.M1', False, mod, ps, 'pad_string has no raising length check: text longer than the field is cut silently (reader and writer then disagree on the value)', func='pad_string', text='cmdseq fixed-width strings raise')
     else:
-        ctx.shape('C20.M1', any(ast.unparse(n.test) in ('len(text) > length', 'length < len(text)') for n in raising), mod, raising[0], 'raising guard compares len(text) with the field length', func='pad_string', text='cmdseq fixed-width strings raise')
+        ctx.shape('C20.M1', any(U(n.test) in ('len(text) > length', 'length < len(text)') for n in raising), mod, raising[0], 'raising guard compares len(text) with the field length', func='pad_string', text='cmdseq fixed-width strings raise')
     # reading side: a field that is completely filled has no NUL terminator (pad_string writes none when len(text) == length) and must
     # come back whole.  `bytes.find` answers -1 for "no NUL"; used as a slice bound unchecked it silently drops the last character.
     sc = mod.func('strip_cstring')
@@ -406,16 +407,16 @@ def m1_cmdseq(ctx: Any, prog: Program) -> None:
         from_find = up is not None and (any(up is f for f in finds) or (isinstance(up, ast.Name) and up.id in find_vars))
         if from_find:
             n_forms += 1
-            names = find_vars | {ast.unparse(f) for f in finds}
-            guarded = any(isinstance(c, ast.Compare) and (ast.unparse(c.left) in names or any(ast.unparse(x) in names for x in c.comparators)) for c in ast.walk(sc))
-            ctx.check('C20.M1', guarded, mod, sl, f'strip_cstring cuts at `{ast.unparse(up)}` = {prm}.find(NUL) without testing for -1: a field filled to its full width has no terminator, and `{ast.unparse(sl)}` then drops '
+            names = find_vars | {U(f) for f in finds}
+            guarded = any(isinstance(c, ast.Compare) and (U(c.left) in names or any(U(x) in names for x in c.comparators)) for c in ast.walk(sc))
+            ctx.check('C20.M1', guarded, mod, sl, f'strip_cstring cuts at `{U(up)}` = {prm}.find(NUL) without testing for -1: a field filled to its full width has no terminator, and `{U(sl)}` then drops '
                       'its last character', func='strip_cstring', text='cmdseq full-width field read whole')
         elif up is not None and isinstance(up, ast.Call) and isinstance(up.func, ast.Attribute) and up.func.attr == 'index':
             n_forms += 1
             par_if = [i for i in ast.walk(sc) if isinstance(i, ast.If) and any(sl is x for b in i.body for x in ast.walk(b))]
             in_test = any(isinstance(i.test, ast.Compare) and isinstance(i.test.ops[0], ast.In) and dotted(i.test.comparators[0]) == prm for i in par_if)
             in_try = any(isinstance(t, ast.Try) and any(sl is x for b in t.body for x in ast.walk(b)) for t in ast.walk(sc))
-            ctx.check('C20.M1', in_test or in_try, mod, sl, f'`{ast.unparse(sl)}` raises ValueError for a field without terminator (a name filling the whole field)', func='strip_cstring', text='cmdseq full-width field read whole')
+            ctx.check('C20.M1', in_test or in_try, mod, sl, f'`{U(sl)}` raises ValueError for a field without terminator (a name filling the whole field)', func='strip_cstring', text='cmdseq full-width field read whole')
     if not n_forms:
         part = any(isinstance(c, ast.Call) and isinstance(c.func, ast.Attribute) and c.func.attr in ('partition', 'split') and dotted(c.func.value) == prm for c in ast.walk(sc))
         ctx.shape('C20.M1', part, mod, sc, 'strip_cstring cuts at the first NUL through an enumerated idiom (in + index, find with a -1 test, partition/split)', func='strip_cstring', text='cmdseq full-width field read whole')
@@ -431,7 +432,7 @@ def field_types(mod: Any, cls: str) -> Dict[str, str]:
     for c in reversed([cls] + [b.id for b in mod.cls(cls).bases if isinstance(b, ast.Name) and mod.has_class(b.id)]):
         for st in mod.cls(c).body:
             if isinstance(st, ast.AnnAssign) and isinstance(st.target, ast.Name):
-                out[st.target.id] = ast.unparse(st.annotation)
+                out[st.target.id] = U(st.annotation)
     return out
 
 
@@ -513,7 +514,7 @@ def m1_choreo(ctx: Any, prog: Program) -> None:
     for ename, sub in kinds.items():
         if sub is None:
             continue
-        src = ast.unparse(mod.cls(sub))
+        src = U(mod.cls(sub))
         ctx.shape('C20.M1', f'EventType.{ename}' in src and 'init=False' in src, mod, mod.cls(sub), f'{sub} is fixed to EventType.{ename} (the reader dispatches on the type, the writer on the class)', func=sub, text=f'{sub} type fixed')
     # quantisation: the writer stores round(value * F) clamped to the capacity of the slot it is packed into, the reader divides by the same F.
     # Decided structurally: locals and single-expression helper functions are inlined, constants folded per concrete class.
@@ -589,8 +590,8 @@ def m1_choreo(ctx: Any, prog: Program) -> None:
         val = q_inline(pack_call.args[slot], fn)
         m_ = q_match(val)
         code = expand(fmt)[slot] if slot < len(expand(fmt)) else '?'
-        ctx.shape('C20.M1', m_ is not None and code in CAPACITY, mod, pack_call, f'{label}: quantised slot `{ast.unparse(pack_call.args[slot])[:50]}` is min(MAX, max(0, round(value * F))) packed as {code!r} '
-                  f'(found `{ast.unparse(val)[:70]}`)', func=f'{clsname}.export_binary', text=f'{label} scale factor')
+        ctx.shape('C20.M1', m_ is not None and code in CAPACITY, mod, pack_call, f'{label}: quantised slot `{U(pack_call.args[slot])[:50]}` is min(MAX, max(0, round(value * F))) packed as {code!r} '
+                  f'(found `{U(val)[:70]}`)', func=f'{clsname}.export_binary', text=f'{label} scale factor')
         if m_ is None or code not in CAPACITY:
             return None
         hi, lo, prod = m_
@@ -647,18 +648,18 @@ def m1_choreo(ctx: Any, prog: Program) -> None:
             ctx.check('C20.M1', wfac == rfac and len(rfac) == 1, mod, ex_, f'{concrete}: the writer multiplies by {sorted(wfac)} and the reader divides by {sorted(rfac)}', func=f'{clsname}.export_binary', text=f'{concrete} factor both ways')
     ctx.shape('C20.M1', n_quant >= 5, mod, mod.cls('Tag'), f'quantised slots found: {n_quant} (Tag, AbsoluteTag, Curve, 2x FlexAnimTrack confirmed by hand)', func='Tag', text='quantised slot census')
     ct = mod.methods('CurveType')
-    ok = ast.unparse(ct['parse_binary'].body[-1]) == 'return cls(Interpolation(value >> 8 & 255), Interpolation(value & 255))' and ast.unparse(ct['export_binary'].body[-1]) == 'return self.first.value << 8 | self.second.value'
+    ok = U(ct['parse_binary'].body[-1]) == 'return cls(Interpolation(value >> 8 & 255), Interpolation(value & 255))' and U(ct['export_binary'].body[-1]) == 'return self.first.value << 8 | self.second.value'
     ctx.shape('C20.M1', ok, mod, ct['export_binary'], 'CurveType: first interpolation in the high byte, second in the low byte, both ways', func='CurveType.export_binary', text='CurveType byte positions')
     # flags bits of FlexAnimTrack / SpeakEvent
-    fr, fw = ast.unparse(mod.methods('FlexAnimTrack')['parse_binary']), ast.unparse(mod.methods('FlexAnimTrack')['export_binary'])
+    fr, fw = U(mod.methods('FlexAnimTrack')['parse_binary']), U(mod.methods('FlexAnimTrack')['export_binary'])
     ok = 'active = flags & 1 != 0' in fr and 'has_direction = flags & 2 != 0' in fr and 'flags = 1 * self.active | 2 * (self.dir_track is not None)' in fw
     ctx.shape('C20.M1', ok, mod, mod.methods('FlexAnimTrack')['export_binary'], 'FlexAnimTrack flag bits: 1 = active, 2 = has direction track', func='FlexAnimTrack.export_binary', text='FlexAnimTrack flag bits')
-    er, ew = ast.unparse(mod.methods('Event')['parse_binary']), ast.unparse(mod.methods('Event')['export_binary'])
+    er, ew = U(mod.methods('Event')['parse_binary']), U(mod.methods('Event')['export_binary'])
     ok = all(s in er for s in ('use_combined_file=speak_flags & 1 != 0', 'use_gender_token=speak_flags & 2 != 0', 'suppress_caption_attenuation=speak_flags & 4 != 0')) and '2 * self.use_gender_token' in ew and '4 * self.suppress_caption_attenuation' in ew \
         and 'self.use_combined_file)' in ew and '1 * (' in ew
     ctx.shape('C20.M1', ok, mod, mod.methods('Event')['export_binary'], 'SpeakEvent flag bits 1/2/4 agree', func='Event.export_binary', text='SpeakEvent flag bits')
     # event header linkage (name / times / params)
-    hr = [n for n in walk_no_nested(mod.methods('Event')['parse_binary']) if isinstance(n, ast.Assign) and "'<bhffhhh'" in ast.unparse(n.value)]
+    hr = [n for n in walk_no_nested(mod.methods('Event')['parse_binary']) if isinstance(n, ast.Assign) and "'<bhffhhh'" in U(n.value)]
     hw = [c for c in walk_no_nested(mod.methods('Event')['export_binary']) if isinstance(c, ast.Call) and dotted(c.func) == 'struct.pack' and isinstance(c.args[0], ast.Constant) and c.args[0].value == '<bhffhhh']
     if len(hr) != 1 or len(hw) != 1:
         raise AnalysisError('Event header pack/unpack not found')
@@ -685,7 +686,7 @@ def m1_choreo(ctx: Any, prog: Program) -> None:
                 if isinstance(x, ast.Name) and x.id in rn:
                     feeds[x.id] = 'type'
     for i, (r_, w_) in enumerate(zip(rn, wargs)):
-        src_w = ast.unparse(w_)
+        src_w = U(w_)
         m_ = re.search(r'self\.(\w+)(\[\d\])?', src_w)
         wfield = (m_.group(1) + (m_.group(2) or '')) if m_ else None
         rfield = feeds.get(r_ or '')
@@ -702,7 +703,7 @@ def m1_m4_scenes_image(ctx: Any, prog: Program) -> None:
     mod = prog.module('choreo')
     fold = Folder(prog, mod)
     pf, sf = mod.func('parse_scenes_image'), mod.func('save_scenes_image_sync')
-    ps, ss = ast.unparse(pf), ast.unparse(sf)
+    ps, ss = U(pf), U(sf)
     ok = "binformat.struct_read('<4s4i', file)" in ps and "struct.pack('<4siii', b'VSIF', version, len(scene_list), len(pool))" in ss and "deferred.defer('scene_offset', '<i', write=True)" in ss \
         and ss.index("struct.pack('<4siii'") < ss.index("deferred.defer('scene_offset'") < ss.index("deferred.defer('pool_offsets'")
     ctx.shape('C20.M1', ok, mod, sf, 'header: magic, version, scene count, string count, scene table offset - the deferred offset directly follows the packed part', func='save_scenes_image_sync', text='scenes.image header')
@@ -714,12 +715,12 @@ def m1_m4_scenes_image(ctx: Any, prog: Program) -> None:
     for ver in (3, 2):
         r = TokWire(mod, fold, {'version == 3': ver == 3}, ignore=('binformat.decompress_lzma',))
         w = TokWire(mod, fold, {'version == 3': ver == 3}, ignore=())
-        rloop = [n for n in walk_no_nested(pf) if isinstance(n, ast.For) and 'summary_off' in ast.unparse(n.target)]
-        wloop = [n for n in walk_no_nested(sf) if isinstance(n, ast.For) and "('summary', entry.checksum)" in ast.unparse(n) and 'set_data' in ast.unparse(n)]
+        rloop = [n for n in walk_no_nested(pf) if isinstance(n, ast.For) and 'summary_off' in U(n.target)]
+        wloop = [n for n in walk_no_nested(sf) if isinstance(n, ast.For) and "('summary', entry.checksum)" in U(n) and 'set_data' in U(n)]
         if len(rloop) != 1 or len(wloop) != 1:
             raise AnalysisError('scenes.image summary loops not found')
-        rsum = [s for s in rloop[0].body if isinstance(s, ast.If) and 'version == 3' in ast.unparse(s.test)]
-        wsum = [s for s in wloop[0].body if isinstance(s, ast.If) and 'version == 3' in ast.unparse(s.test)]
+        rsum = [s for s in rloop[0].body if isinstance(s, ast.If) and 'version == 3' in U(s.test)]
+        wsum = [s for s in wloop[0].body if isinstance(s, ast.If) and 'version == 3' in U(s.test)]
         rs, ws = norm(r.block(rsum)), norm(w.block(wsum))
         ctx.check('C20.M1', rs == ws and rs != '', mod, wsum[0], f'summary record v{ver}: reader `{rs}`, writer `{ws}`', func='save_scenes_image_sync', text=f'scenes.image summary v{ver}')
     ok = "struct.pack('<Iii', entry.duration_ms, entry.last_speak_ms, len(entry.sounds))" in ss and "struct.pack('<Ii', entry.duration_ms, len(entry.sounds))" in ss and '[duration, last_speak, sound_count] = binformat.struct_read' in ps \
@@ -772,7 +773,7 @@ def m1_m4_scenes_image(ctx: Any, prog: Program) -> None:
     per_entry = [n for n in walk_no_nested(sf) if isinstance(n, ast.For) and isinstance(n.target, ast.Name) and n.lineno > last_sort
                  and any(isinstance(x, ast.Attribute) and x.attr == 'checksum' and dotted(x.value) == n.target.id for st in n.body for x in ast.walk(st))]
     ok = all(dotted(n.iter) == lst for n in per_entry) and len(per_entry) >= 3
-    ctx.check('C20.M4', ok, mod, table[0], f'table, summaries and data iterate the same sorted list ({len(per_entry)} per-entry loops after the sort, over {sorted({ast.unparse(n.iter) for n in per_entry})})',
+    ctx.check('C20.M4', ok, mod, table[0], f'table, summaries and data iterate the same sorted list ({len(per_entry)} per-entry loops after the sort, over {sorted({U(n.iter) for n in per_entry})})',
               func='save_scenes_image_sync', text='one list for table, summaries, data')
     ok = "deferred.set_data(('summary', entry.checksum), file.tell())" in ss and "deferred.set_data(('data', entry.checksum), file.tell(), len(data))" in ss and 'data = entry_to_data[entry]' in ss
     ctx.shape('C20.M4', ok, mod, sf, "each entry's summary offset, data offset and data length are set on the slots keyed by that entry", func='save_scenes_image_sync', text='offsets keyed per entry')
@@ -787,10 +788,10 @@ def m1_m4_scenes_image(ctx: Any, prog: Program) -> None:
         if key is None:
             ctx.check('C20.M4', False, mod, fi[0], 'find_or_insert defaults to key=id: equal strings that are different objects get different pool entries and, worse, recycled ids can alias', func='save_scenes_image_sync', text='pool key is the string itself')
         elif ident or lossy:
-            ctx.check('C20.M4', ident, mod, fi[0], f'the string pool is keyed by `{ast.unparse(key)}`: two different strings with the same key share one pool entry, so the second reads back as the first', func='save_scenes_image_sync',
+            ctx.check('C20.M4', ident, mod, fi[0], f'the string pool is keyed by `{U(key)}`: two different strings with the same key share one pool entry, so the second reads back as the first', func='save_scenes_image_sync',
                       text='pool key is the string itself')
         else:
-            ctx.shape('C20.M4', False, mod, fi[0], f'pool key function `{ast.unparse(key)}` not recognised', func='save_scenes_image_sync', text='pool key is the string itself')
+            ctx.shape('C20.M4', False, mod, fi[0], f'pool key function `{U(key)}` not recognised', func='save_scenes_image_sync', text='pool key is the string itself')
     ok = "entry_to_data[entry] = entry.data.export_binary(add_to_pool)" in ss and 'for sound in entry.sounds:\n            add_to_pool(sound)' in ss and ss.index('add_to_pool(sound)') < ss.index("struct.pack('<4siii'")
     ctx.shape('C20.M4', ok, mod, sf, 'all sounds and scene strings are pooled before the pool size is written', func='save_scenes_image_sync', text='pool complete before header')
 
@@ -806,7 +807,7 @@ def written_lines(fn: ast.AST) -> List[Tuple[str, ast.AST]]:
             if isinstance(x, ast.Constant) and isinstance(x.value, str):
                 tmpl = x.value
             elif isinstance(x, ast.JoinedStr):
-                tmpl = ''.join(str(v.value) if isinstance(v, ast.Constant) else ('\x00' if ast.unparse(v.value) == 'indent' else '\x01') for v in x.values)   # type: ignore[attr-defined]
+                tmpl = ''.join(str(v.value) if isinstance(v, ast.Constant) else ('\x00' if U(v.value) == 'indent' else '\x01') for v in x.values)   # type: ignore[attr-defined]
             else:
                 continue
             for line in tmpl.split('\n'):
@@ -830,7 +831,7 @@ def reader_keywords(mod: Any, fn: ast.AST, fold: Folder) -> Tuple[Set[str], Set[
                 kws |= {k for k in tbl if isinstance(k, str)}
             except (FoldError, AnalysisError):
                 pass
-        if isinstance(n, ast.If) and isinstance(n.test, ast.Compare) and isinstance(n.test.comparators[0], ast.Constant) and any(isinstance(s, ast.Raise) and 'NotImplementedError' in ast.unparse(s) for s in n.body):
+        if isinstance(n, ast.If) and isinstance(n.test, ast.Compare) and isinstance(n.test.comparators[0], ast.Constant) and any(isinstance(s, ast.Raise) and 'NotImplementedError' in U(s) for s in n.body):
             unimpl.add(n.test.comparators[0].value)
     return kws, unimpl
 
@@ -874,16 +875,16 @@ def m2_choreo_text(ctx: Any, prog: Program) -> None:
             words = c.args[-1].value.split()
             ok = all(w in all_reader_kw['Event'] for w in words)
             ctx.check('C20.M2', ok, mod, c, f'block name `{c.args[-1].value}` written through {dotted(c.func)} is not dispatched on by Event.parse_text', func='Event.export_text', text=f'Event block {c.args[-1].value}')
-    ok = "self.ramp.export_text(file, '', 'scene_ramp')" in ast.unparse(mod.methods('Scene')['export_text']) and 'scene_ramp' in all_reader_kw['Scene']
+    ok = "self.ramp.export_text(file, '', 'scene_ramp')" in U(mod.methods('Scene')['export_text']) and 'scene_ramp' in all_reader_kw['Scene']
     ctx.shape('C20.M2', ok, mod, mod.methods('Scene')['export_text'], 'scene ramp block name', func='Scene.export_text', text='Scene block scene_ramp')
     # quoted slots
     quoted_slot_lint(ctx, mod, [f'{c}.export_text' for c in ('Event', 'Channel', 'Actor', 'Scene', 'Tag', 'FlexAnimTrack')], ('escape_text',), 'C20.M2')
     # flexanimations block is closed
-    src = ast.unparse(ev_exp)
+    src = U(ev_exp)
     opened = 'flexanimations samples_use_time' in src
     if opened:
-        flex_if = [n for n in walk_no_nested(ev_exp) if isinstance(n, ast.If) and ast.unparse(n.test) == 'self.flex_anim_tracks']
-        closes = bool(flex_if) and any(isinstance(s, ast.Expr) and isinstance(s.value, ast.Call) and dotted(s.value.func) == 'file.write' and '}' in ast.unparse(s.value.args[0]) for s in flex_if[0].body[-1:])
+        flex_if = [n for n in walk_no_nested(ev_exp) if isinstance(n, ast.If) and U(n.test) == 'self.flex_anim_tracks']
+        closes = bool(flex_if) and any(isinstance(s, ast.Expr) and isinstance(s.value, ast.Call) and dotted(s.value.func) == 'file.write' and '}' in U(s.value.args[0]) for s in flex_if[0].body[-1:])
         ctx.check('C20.M2', closes, mod, flex_if[0] if flex_if else ev_exp, 'Event.export_text opens the `flexanimations` block with `{` but never writes the closing brace after the tracks', func='Event.export_text',
                   text='flexanimations block closed')
 
@@ -921,7 +922,7 @@ def quoted_slot_lint(ctx: Any, mod: Any, quals: Sequence[str], escapers: Sequenc
                     if not inq:
                         continue
                     inner = v.value                                          # type: ignore[attr-defined]
-                    src = ast.unparse(inner)
+                    src = U(inner)
                     if isinstance(inner, ast.Call) and dotted(inner.func) in escapers:
                         n += 1
                         ctx.check(rule, True, mod, c, 'escaped', func=qual, text=f'{qual} quoted slot {src[:40]}')
@@ -951,9 +952,9 @@ def m2_sndscript(ctx: Any, prog: Program) -> None:
     mod = prog.module('sndscript')
     exp, par = mod.func('Sound.export'), mod.func('Sound.parse_one')
     quoted_slot_lint(ctx, mod, ['Sound.export'], ('escape_text',), 'C20.M2')
-    esrc, psrc = ast.unparse(exp), ast.unparse(par)
+    esrc, psrc = U(exp), U(par)
     # multi-token values must be quoted: join_float may return "low, high"
-    jf = ast.unparse(mod.func('join_float'))
+    jf = U(mod.func('join_float'))
     multi = "', '" in jf or '", "' in jf or ', {' in jf
     for c in walk_no_nested(exp):
         if isinstance(c, ast.Call) and dotted(c.func) == 'file.write' and c.args and isinstance(c.args[0], ast.JoinedStr):
@@ -964,9 +965,9 @@ def m2_sndscript(ctx: Any, prog: Program) -> None:
                         if ch == '"':
                             inq = not inq
                 elif isinstance(v.value, ast.Call) and dotted(v.value.func) == 'join_float':       # type: ignore[attr-defined]
-                    key = ast.unparse(c.args[0].values[0]).strip("'\\t ") if c.args[0].values else '?'
-                    ctx.check('C20.M2', inq or not multi, mod, c, f'`{ast.unparse(v.value)}` can produce "low, high"; written outside quotes the comma becomes a token of its own and the file no longer parses',   # type: ignore[attr-defined]
-                              func='Sound.export', text=f'range value quoted: {ast.unparse(v.value)[:40]}')                                                                    # type: ignore[attr-defined]
+                    key = U(c.args[0].values[0]).strip("'\\t ") if c.args[0].values else '?'
+                    ctx.check('C20.M2', inq or not multi, mod, c, f'`{U(v.value)}` can produce "low, high"; written outside quotes the comma becomes a token of its own and the file no longer parses',   # type: ignore[attr-defined]
+                              func='Sound.export', text=f'range value quoted: {U(v.value)[:40]}')                                                                    # type: ignore[attr-defined]
     # keys
     written = {kw.casefold() for kw, _ in written_lines(exp)} - {'t'}
     read = set(re.findall(r"'([a-z_0-9]+)'", psrc)) | {'wave', 'rndwave'}
@@ -981,7 +982,7 @@ def m2_sndscript(ctx: Any, prog: Program) -> None:
 
 # ---- M2 vmt -----------------------------------------------------------------------------------------------------------------------------
     # soundentry_version 2 accompanies every operator_stacks block: Sound.parse_one refuses stacks in a version-1 entry
-    refuses = any(isinstance(n, ast.If) and 'operator_stacks' in ast.unparse(n.test) and any(isinstance(r, ast.Raise) for r in ast.walk(n)) for n in ast.walk(par))
+    refuses = any(isinstance(n, ast.If) and 'operator_stacks' in U(n.test) and any(isinstance(r, ast.Raise) for r in ast.walk(n)) for n in ast.walk(par))
 
     def lit_writes(word: str) -> List[ast.Call]:
         return [c for c in walk_no_nested(exp) if isinstance(c, ast.Call) and dotted(c.func) == 'file.write' and any(isinstance(k, ast.Constant) and isinstance(k.value, str) and word in k.value for k in ast.walk(c))]
@@ -1020,12 +1021,12 @@ def m2_vmt(ctx: Any, prog: Program) -> None:
     escapes = [c for f in closure for c in ast.walk(f) if isinstance(c, ast.Call) and (dotted(c.func) == 'escape_text' or (isinstance(c.func, ast.Attribute) and c.func.attr in ('serialise', 'serialize')))]
     ctx.check('C20.M2', bool(escapes) == decodes, mod, escapes[0] if escapes else exp, f'Material.parse tokenises with allow_escapes={decodes} but Material.export {"escapes text (escape_text / Keyvalues.serialise)" if escapes else "writes text verbatim"}: '
               'backslashes in block values change on every save/load cycle', func='Material.export', text='VMT escape configuration agrees')
-    src = ast.unparse(exp)
+    src = U(exp)
     for what in ('name', 'value', 'shader'):
-        guards = [n for n in ast.walk(exp) if isinstance(n, ast.If) and 'BARE_DISALLOWED' in ast.unparse(n.test) and what in {x.id for x in ast.walk(n.test) if isinstance(x, ast.Name)}
-                  and any(isinstance(b, ast.Assign) and dotted(b.targets[0]) == what and isinstance(b.value, ast.JoinedStr) and ast.unparse(b.value).startswith("f'\"") for b in n.body)]
+        guards = [n for n in ast.walk(exp) if isinstance(n, ast.If) and 'BARE_DISALLOWED' in U(n.test) and what in {x.id for x in ast.walk(n.test) if isinstance(x, ast.Name)}
+                  and any(isinstance(b, ast.Assign) and dotted(b.targets[0]) == what and isinstance(b.value, ast.JoinedStr) and U(b.value).startswith("f'\"") for b in n.body)]
         ctx.check('C20.M2', bool(guards), mod, exp, f'the {what} is written bare with no quoting guard: it must be quoted when it contains a delimiter character (BARE_DISALLOWED)', func='Material.export', text=f'VMT {what} quoted when needed')
-    ok = "param_name.casefold() == 'proxies'" in ast.unparse(par) and "'\\n\\tProxies\\n\\t\\t{\\n'" in src
+    ok = "param_name.casefold() == 'proxies'" in U(par) and "'\\n\\tProxies\\n\\t\\t{\\n'" in src
     ctx.shape('C20.M2', ok, mod, exp, 'Proxies block keyword', func='Material.export', text='VMT proxies keyword')
     for attr in ('proxies', 'blocks'):
         adds = [c for c in ast.walk(par) if isinstance(c, ast.Call) and isinstance(c.func, ast.Attribute) and c.func.attr in ('extend', 'append') and dotted(c.func.value) == f'mat.{attr}']
@@ -1035,7 +1036,7 @@ def m2_vmt(ctx: Any, prog: Program) -> None:
         for c in adds:
             filt = [g for x in ast.walk(c) if isinstance(x, (ast.GeneratorExp, ast.ListComp)) for g in x.generators if g.ifs]
             parent_if = vmt_guard(mod, c)
-            ctx.check('C20.M2', not filt and parent_if is None, mod, c, f'`{ast.unparse(c)[:80]}` keeps only some of the parsed blocks ({"filter `" + ast.unparse(filt[0].ifs[0]) + "`" if filt else "guard `" + str(parent_if) + "`"}): '
+            ctx.check('C20.M2', not filt and parent_if is None, mod, c, f'`{U(c)[:80]}` keeps only some of the parsed blocks ({"filter `" + U(filt[0].ifs[0]) + "`" if filt else "guard `" + str(parent_if) + "`"}): '
                       'Material.export writes every block, so the dropped ones are lost on a round trip', func='Material.parse', text=f'VMT {attr} all kept')
     ok = kws.get('string_bracket') is True
     ctx.shape('C20.M2', ok, mod, tk[0], 'bracketed vectors are single string tokens for the parser (the writer quotes them because of the spaces)', func='Material.parse', text='VMT bracket strings')
@@ -1046,8 +1047,8 @@ def vmt_guard(mod: Any, call: ast.AST) -> Optional[str]:
     p = mod.parents.get(call)
     while p is not None and not isinstance(p, (ast.FunctionDef, ast.For, ast.While)):
         q = mod.parents.get(p)
-        if isinstance(q, ast.If) and p in q.body and not any(s in ast.unparse(q.test) for s in ('token', 'Tok.', 'param_name')):
-            return ast.unparse(q.test)[:60]
+        if isinstance(q, ast.If) and p in q.body and not any(s in U(q.test) for s in ('token', 'Tok.', 'param_name')):
+            return U(q.test)[:60]
         p = q
     return None
 
@@ -1056,7 +1057,7 @@ def vmt_guard(mod: Any, call: ast.AST) -> Optional[str]:
 def m2_particles(ctx: Any, prog: Program) -> None:
     mod = prog.module('particles')
     par, exp = mod.func('Particle.parse'), mod.func('Particle.export')
-    psrc, esrc = ast.unparse(par), ast.unparse(exp)
+    psrc, esrc = U(par), U(exp)
     sections_r = re.findall(r"generic_attr\(elem, '(\w+)'\)", psrc)
     lst = [n for n in ast.walk(exp) if isinstance(n, ast.List) and all(isinstance(e, ast.Constant) and isinstance(e.value, str) for e in n.elts) and len(n.elts) >= 4]
     sections_w = [e.value for e in lst[0].elts] if lst else []
@@ -1078,21 +1079,21 @@ def m2_particles(ctx: Any, prog: Program) -> None:
     param = exp.args.args[1].arg
     loops = [n for n in walk_no_nested(exp) if isinstance(n, ast.For) and dotted(n.iter) == param]
     materialised = any(isinstance(n, ast.Assign) and dotted(n.targets[0]) == param and isinstance(n.value, ast.Call) and dotted(n.value.func) in ('list', 'tuple') for n in exp.body)
-    ann = ast.unparse(exp.args.args[1].annotation) if exp.args.args[1].annotation is not None else ''
+    ann = U(exp.args.args[1].annotation) if exp.args.args[1].annotation is not None else ''
     ctx.check('C20.M2', len(loops) < 2 or materialised or not ann.startswith('Iterable'), mod, loops[-1] if loops else exp, f'`{param}` is declared {ann} and iterated {len(loops)} times: a generator is empty the second time, so every child link is dropped',
               func='Particle.export', text='particle iterable walked once or materialised')
     # attribute spelling kept
     for c in ast.walk(exp):
         if isinstance(c, ast.Assign) and isinstance(c.targets[0], ast.Subscript) and isinstance(c.value, ast.Call) and dotted(c.value.func) == 'copy.deepcopy':
-            key = ast.unparse(c.targets[0].slice)
-            ctx.check('C20.M2', '.casefold()' not in key, mod, c, f'`{ast.unparse(c.targets[0])} = ...` renames the stored attribute to the case-folded key (Element.__setitem__ sets attribute.name to the key): the original spelling is lost',
+            key = U(c.targets[0].slice)
+            ctx.check('C20.M2', '.casefold()' not in key, mod, c, f'`{U(c.targets[0])} = ...` renames the stored attribute to the case-folded key (Element.__setitem__ sets attribute.name to the key): the original spelling is lost',
                       func='Particle.export', text=f'particle attribute spelling {key[:30]}')
     # name not duplicated into options
-    opts = [n for n in ast.walk(par) if isinstance(n, ast.DictComp) and 'deepcopy' in ast.unparse(n)]
+    opts = [n for n in ast.walk(par) if isinstance(n, ast.DictComp) and 'deepcopy' in U(n)]
     if len(opts) != 2:
         ctx.shape('C20.M2', False, mod, par, 'the two option dict comprehensions were not found', func='Particle.parse', text='particle name not in options')
     else:
-        ctx.check('C20.M2', all(any("'name'" in ast.unparse(i) for g in n.generators for i in g.ifs) for n in opts), mod, opts[0],
+        ctx.check('C20.M2', all(any("'name'" in U(i) for g in n.generators for i in g.ifs) for n in opts), mod, opts[0],
                   'the element name is an ordinary DMX attribute: parse must leave it out of the options (it is stored in .name), otherwise a parsed particle differs from the exported one', func='Particle.parse', text='particle name not in options')
     def _folded_attr(e: ast.AST) -> Optional[str]:
         # <x>.<attr>.casefold()  ->  attr
@@ -1147,8 +1148,8 @@ def m2_smd(ctx: Any, prog: Program) -> None:
     if n_join < 2:
         raise AnalysisError('Mesh.export: same-line write sequences not found')
     # field counts per line
-    src = ast.unparse(exp)
-    psrc = ast.unparse(mod.func('Mesh._parse_smd_anim')) + ast.unparse(mod.func('Mesh._parse_smd_tri')) + ast.unparse(mod.func('Mesh._parse_smd_bones'))
+    src = U(exp)
+    psrc = U(mod.func('Mesh._parse_smd_anim')) + U(mod.func('Mesh._parse_smd_tri')) + U(mod.func('Mesh._parse_smd_bones'))
     anim_w = [t for t, _ in pieces if t.count(b'%') == 7]
     ok = len(anim_w) == 1 and 'byt_ind, byt_x, byt_y, byt_z, byt_pit, byt_yaw, byt_rol = line.split()' in psrc
     ctx.shape('C20.M2', ok, mod, exp, 'skeleton line: 7 whitespace separated fields both ways', func='Mesh.export', text='smd skeleton line arity')
@@ -1170,12 +1171,12 @@ def m2_smd(ctx: Any, prog: Program) -> None:
             continue
         direct = [st for st in loops[0].body if isinstance(st, ast.Expr) and isinstance(st.value, ast.Call) and dotted(st.value.func) == 'file.write']
         guarded = [st for st in loops[0].body if isinstance(st, ast.If) and any(isinstance(c, ast.Call) and dotted(c.func) == 'file.write' for c in ast.walk(st))]
-        ctx.check('C20.M2', bool(direct), mod, guarded[0] if guarded else loops[0], f'the {what} line is only written under `{ast.unparse(guarded[0].test)[:60] if guarded else "?"}`: elements for which it is false are missing from the file, and parse_smd '
+        ctx.check('C20.M2', bool(direct), mod, guarded[0] if guarded else loops[0], f'the {what} line is only written under `{U(guarded[0].test)[:60] if guarded else "?"}`: elements for which it is false are missing from the file, and parse_smd '
                   'has no notion of carrying a previous value forward', func='Mesh.export', text=f'smd {what} records unconditional')
     # determinism: no iteration over a set of bones
     set_names: Dict[str, ast.AST] = {}
     for n in ast.walk(exp):
-        if isinstance(n, ast.AnnAssign) and isinstance(n.target, ast.Name) and n.value is not None and (ast.unparse(n.annotation).startswith('set[') or (isinstance(n.value, ast.Call) and dotted(n.value.func) == 'set')):
+        if isinstance(n, ast.AnnAssign) and isinstance(n.target, ast.Name) and n.value is not None and (U(n.annotation).startswith('set[') or (isinstance(n.value, ast.Call) and dotted(n.value.func) == 'set')):
             set_names[n.target.id] = n
         elif isinstance(n, ast.Assign) and isinstance(n.targets[0], ast.Name) and isinstance(n.value, (ast.Call, ast.Set, ast.SetComp)) and (not isinstance(n.value, ast.Call) or dotted(n.value.func) == 'set'):
             set_names[n.targets[0].id] = n
@@ -1189,7 +1190,7 @@ def m2_smd(ctx: Any, prog: Program) -> None:
     # line may only be written once its parent's line has been written - whatever order self.bones happens to be in
     node_w = [c for c in ast.walk(exp) if isinstance(c, ast.Call) and dotted(c.func) == 'file.write' and c.args and isinstance(c.args[0], ast.BinOp) and isinstance(c.args[0].left, ast.Constant)
               and isinstance(c.args[0].left.value, bytes) and c.args[0].left.value.count(b'%i') == 2 and b'"%s"' in c.args[0].left.value]
-    reader_checks = any(isinstance(r, ast.Raise) and 'parent' in ast.unparse(r).casefold() for q_, fs_ in mod.all_funcs().items() if 'parse' in q_ for f in fs_ for r in ast.walk(f))
+    reader_checks = any(isinstance(r, ast.Raise) and 'parent' in U(r).casefold() for q_, fs_ in mod.all_funcs().items() if 'parse' in q_ for f in fs_ for r in ast.walk(f))
     if len(node_w) != 1 or not reader_checks:
         ctx.shape('C20.M2', False, mod, exp, 'node line writer / parent check of the reader not found', func='Mesh.export', text='smd nodes written parents first')
     else:
@@ -1219,15 +1220,15 @@ def m5_tables(ctx: Any, prog: Program) -> None:
     ctx.check('C20.M5', len(set(vals)) == len(vals) == len(keys), mod, node, 'two interpolations share a name: NAME_TO_INTERP cannot invert the table', func='<module>', text='INTERP_TO_NAME injective')
     ctx.check('C20.M5', all(re.fullmatch(r'[a-z_]+', v) for v in vals), mod, node, 'interpolation names must match [a-z_]+ (CurveType.parse_text matches curve_([a-z_]+)_to_curve_([a-z_]+))', func='<module>', text='interpolation name alphabet')
     ctx.check('C20.M5', not any('_to_curve_' in v for v in vals), mod, node, 'a name containing "_to_curve_" makes the curve text ambiguous', func='<module>', text='interpolation names unambiguous')
-    ctx.shape('C20.M5', ast.unparse(mod.global_assign('NAME_TO_INTERP')) == '{v: k for k, v in INTERP_TO_NAME.items()}', mod, mod.global_assign('NAME_TO_INTERP'), 'NAME_TO_INTERP is the inverse table', func='<module>', text='NAME_TO_INTERP inverse')
+    ctx.shape('C20.M5', U(mod.global_assign('NAME_TO_INTERP')) == '{v: k for k, v in INTERP_TO_NAME.items()}', mod, mod.global_assign('NAME_TO_INTERP'), 'NAME_TO_INTERP is the inverse table', func='<module>', text='NAME_TO_INTERP inverse')
     ivals = sorted(m.value for m in it)
     ctx.check('C20.M5', ivals == list(range(len(ivals))) and max(ivals) < 128, mod, mod.cls('Interpolation'), 'interpolation numbers are dense and fit one byte of the packed curve type', func='Interpolation', text='interpolation numbers fit a byte')
     cap = mod.global_assign('NAME_TO_CAPTION_TYPE')
     ct = fold.enum_table('CaptionType')
     ckeys = [v.attr for v in cap.values if isinstance(v, ast.Attribute)] if isinstance(cap, ast.Dict) else []
     ctx.check('C20.M5', set(ckeys) == {m.name for m in ct} and len(ckeys) == len(set(ckeys)), mod, cap, 'NAME_TO_CAPTION_TYPE must name every CaptionType exactly once (CAPTION_TYPE_TO_NAME is its inverse)', func='<module>', text='caption type table')
-    ctx.shape('C20.M5', ast.unparse(mod.global_assign('CAPTION_TYPE_TO_NAME')) == '{v: k for k, v in NAME_TO_CAPTION_TYPE.items()}', mod, mod.global_assign('CAPTION_TYPE_TO_NAME'), 'CAPTION_TYPE_TO_NAME inverse', func='<module>', text='caption type inverse')
-    ctx.shape('C20.M5', ast.unparse(mod.global_assign('NAME_TO_EVENT_TYPE')) == '{event.name.casefold(): event for event in EventType}' and 'self.type.name.lower()' in ast.unparse(mod.methods('Event')['export_text']), mod,
+    ctx.shape('C20.M5', U(mod.global_assign('CAPTION_TYPE_TO_NAME')) == '{v: k for k, v in NAME_TO_CAPTION_TYPE.items()}', mod, mod.global_assign('CAPTION_TYPE_TO_NAME'), 'CAPTION_TYPE_TO_NAME inverse', func='<module>', text='caption type inverse')
+    ctx.shape('C20.M5', U(mod.global_assign('NAME_TO_EVENT_TYPE')) == '{event.name.casefold(): event for event in EventType}' and 'self.type.name.lower()' in U(mod.methods('Event')['export_text']), mod,
               mod.global_assign('NAME_TO_EVENT_TYPE'), 'event type names: written as name.lower(), looked up case-folded in a table derived from the enum', func='<module>', text='event type names')
     fl = mod.global_assign('NAME_TO_EVENT_FLAG')
     ef = fold.enum_table('EventFlags')
